@@ -80,6 +80,7 @@ pub fn enumerate(sq: &StanzaQuery, tree: &Tree, source: &str, ti: &TreeInfo) -> 
             out.rootless += 1;
         }
         let mut caps = BTreeMap::new();
+        let mut raw = BTreeMap::new();
         for (name, q, idx) in &sq.captures {
             let nodes: Vec<usize> = m
                 .nodes_for_capture_index(*idx)
@@ -103,8 +104,9 @@ pub fn enumerate(sq: &StanzaQuery, tree: &Tree, source: &str, ti: &TreeInfo) -> 
                 }
             };
             caps.insert(name.clone(), v);
+            raw.insert(name.clone(), nodes);
         }
-        out.matches.push(MatchInfo { root, caps });
+        out.matches.push(MatchInfo { root, caps, raw });
     }
     out
 }
